@@ -70,6 +70,22 @@ ParseFails(ln) ==
     UNION { FailT(ln.parsed.st # "panic", "C16:path-parser-panic"),
             FailT(ln.parsed.st = r.st /\ (r.st = "ok" => ln.parsed.nib = r.nib), "C16:path-parser-result") }
 
+\* Cas::open replaying a crafted segment: keys (byte strings) present after applying the decoded operations in order
+RECURSIVE KeysAfter(_, _)
+KeysAfter(ents, acc) ==
+    IF ents = <<>> THEN [ok |-> TRUE, keys |-> acc]
+    ELSE LET d == DecOp(Head(ents).data) IN
+         IF d.st # "ok" THEN [ok |-> FALSE, keys |-> acc]
+         ELSE KeysAfter(Tail(ents), IF d.op.t = "put" THEN acc \cup {d.op.key}
+                                    ELSE acc \ {d.op.keys[i] : i \in 1..Len(d.op.keys)})
+OpenWalFails(ln) ==
+    LET r == DecSeg(ln.bytes, 1, ln.sums, <<>>)
+        k == KeysAfter(r.entries, {})
+        good == r.err = "" /\ k.ok IN
+    UNION { FailT(ln.st # "panic", "C16:open-crafted-wal-panic"),
+            FailT((ln.st = "ok") = good, "C16:open-crafted-wal-accept-reject"),
+            IF ln.st = "ok" /\ good THEN FailT(ln.n = Cardinality(k.keys), "C16:open-crafted-wal-keys") ELSE {} }
+
 LineFails(ln) ==
     CASE ln.ev = "range" -> RangeFails(ln)
       [] ln.ev = "blobsize" -> UNION { FailT(ln.size = ln.L, "C17:get_size"), FailT(ln.rdlen = ln.L /\ ln.rd_ok, "C17:get_reader"), FailT(ln.get_ok, "C17:get") }
@@ -84,6 +100,7 @@ LineFails(ln) ==
       [] ln.ev = "dec_snap" -> DecSnapFails(ln)
       [] ln.ev = "enc_snap" -> EncSnapFails(ln)
       [] ln.ev = "dec_seg" -> DecSegFails(ln)
+      [] ln.ev = "open_wal" -> OpenWalFails(ln)
       [] ln.ev = "open_index" ->
             \* Cas::open on a crafted snapshot: never a panic; accepted exactly when the snapshot decodes, is not empty
             \* and its keys decode for the key type; the index then holds one entry per distinct key
